@@ -166,8 +166,21 @@ create_thread_dir(int tid)
 {
 	/* The procdir must have been created earlier */
 	mkdir_thread(rthread.thdir, rproc.procdir, tid);
-	if (rproc.move_to_final)
+	if (rproc.move_to_final) {
 		mkdir_thread(rthread.thdir_final, rproc.procdir_final, tid);
+
+		/* The metadata of a previous stream of this thread left in the
+		 * final directory must not mark the new stream as finished
+		 * while it is still being written in the temporary one */
+		char path[PATH_MAX];
+		if (snprintf(path, PATH_MAX, "%s/stream.json",
+					rthread.thdir_final) >= PATH_MAX) {
+			die("path too long: %s/stream.json", rthread.thdir_final);
+		}
+
+		if (unlink(path) != 0 && errno != ENOENT)
+			die("cannot remove old metadata %s:", path);
+	}
 }
 
 static void
